@@ -46,7 +46,13 @@ func (FingerprintAttr) AddTo(m *Message) error {
 	m.Length += fingerprintSize + attributeHeaderSize // increasing length
 	m.WriteLength()                                   // writing Length to Raw
 	b := make([]byte, fingerprintSize)
-	val := FingerprintValue(m.Raw)
+	// Only the bytes covered by the message length are fingerprinted: a message decoded
+	// from a longer buffer still carries the trailing bytes in Raw until Add drops them.
+	covered := m.Raw
+	if end := messageHeaderSize + int(l); end < len(covered) {
+		covered = covered[:end]
+	}
+	val := FingerprintValue(covered)
 	bin.PutUint32(b, val)
 	m.Length = l
 	m.Add(AttrFingerprint, b)
